@@ -72,9 +72,9 @@ def build_stack(top, bottom, tkind):
     elif top == 4:
         cur = TestResultDecorator(cur)
     elif top == 5:
-        cur = Tagger(cur, {"tg"}, set())
+        cur = Tagger(cur, iter(["tg"]), ())       # the tags may be given as any iterable, also a one-shot one
     elif top == 6:
-        cur = Tagger(cur, set(), {"a"})       # a tagger that only removes a tag
+        cur = Tagger(cur, iter(()), iter(["a"]))       # a tagger that only removes a tag
     return cur, targets
 
 
